@@ -18,6 +18,9 @@ pub(crate) type AsyncLruCacheEntry<V> = Arc<AsyncLruCacheEntryInner<V>>;
 pub(crate) struct AsyncLruCache<K: Clone + PartialEq + Eq + Hash + std::fmt::Debug, V> {
     rmap: std::sync::RwLock<HashMap<K, AsyncLruCacheEntry<V>>>,
     wmap: std::sync::Mutex<HashMap<K, AsyncLruCacheEntry<V>>>,
+    // dirty entries which were evicted from rmap and whose write-back
+    // hasn't finished: neither in the cache nor on disk yet
+    evicting: std::sync::Mutex<Vec<(K, AsyncLruCacheEntry<V>)>>,
     limit: usize,
     lru_timer: AtomicUsize,
 }
@@ -29,6 +32,7 @@ impl<K: Clone + PartialEq + Eq + Hash + std::fmt::Debug + std::cmp::PartialOrd, 
         AsyncLruCache {
             rmap: Default::default(),
             wmap: Default::default(),
+            evicting: Default::default(),
             limit: size,
             lru_timer: AtomicUsize::new(0),
         }
@@ -68,6 +72,13 @@ impl<K: Clone + PartialEq + Eq + Hash + std::fmt::Debug + std::cmp::PartialOrd, 
         }
     }
 
+    /// The write-back of these evicted entries is over (or they were put
+    /// back into the cache)
+    pub(crate) fn eviction_done(&self, entries: &[(K, AsyncLruCacheEntry<V>)]) {
+        let mut evicting = self.evicting.lock().unwrap();
+        evicting.retain(|(_, e)| !entries.iter().any(|(_, d)| Arc::ptr_eq(e, d)));
+    }
+
     /// Flush key/value pairs from wmap to rmap
     pub(crate) fn commit_wmap(&self) -> Option<Vec<(K, AsyncLruCacheEntry<V>)>> {
         let mut w = self.wmap.lock().unwrap();
@@ -104,6 +115,13 @@ impl<K: Clone + PartialEq + Eq + Hash + std::fmt::Debug + std::cmp::PartialOrd, 
                 r.len(),
                 self.limit,
             );
+
+            // remember them until the caller has written them back, so
+            // that a concurrent flush doesn't miss them
+            let mut evicting = self.evicting.lock().unwrap();
+            for (key, value) in vec.iter() {
+                evicting.push((key.clone(), Arc::clone(value)));
+            }
 
             Some(vec)
         }
@@ -156,6 +174,14 @@ impl<K: Clone + PartialEq + Eq + Hash + std::fmt::Debug + std::cmp::PartialOrd, 
         let mut vec = Vec::new();
 
         for (key, value) in map.iter() {
+            let k = key.clone();
+            if k >= start && k < end && value.is_dirty() {
+                vec.push((k, Arc::clone(value)));
+            }
+        }
+        // evicted entries whose write-back hasn't been done yet are as
+        // dirty as the cached ones
+        for (key, value) in self.evicting.lock().unwrap().iter() {
             let k = key.clone();
             if k >= start && k < end && value.is_dirty() {
                 vec.push((k, Arc::clone(value)));
